@@ -410,7 +410,7 @@ func genIncompatible(rng *rand.Rand) (target reflect.Type, source reflect.Value,
 func c20(c *wk.Ctx) {
 	c.Note("rule", "streams: compat = a random pair (S,T) of structurally compatible Go types generated together (same-signedness integer widening incl. int/uint, float32->float64, string, bool, slices, maps with scalar keys, structs with permuted field order and varied letter case, depth <= 4/6) and a random edge-biased value s of S: ConvertFrom(&t, s) must succeed and equal the reference conversion, ConvertFrom(&s2, t) must recover s, a second source type with the same fields in another order must convert into the same target type with the same result, and DecodeFrom (the Proxy.Call2 path) must give the same t from the encoding of s; incompat = pairs that must be refused (bool/int, string/number, float/int, slice/map, container/scalar, struct/container), bare and nested in a slice, map value or struct field. Distinct non-trivial = distinct pair shapes containing a composite or a width change.")
 	depth := c.Pick(4, 6)
-	c.Cases("compat", c.Pick(100000, 500000), func(i int, rng *rand.Rand) {
+	c.Cases("compat", c.Pick(100000, 6000000), func(i int, rng *rand.Rand) {
 		n := genNode(rng, 1+rng.Intn(depth))
 		sT, tT := n.types()
 		s := reflect.New(sT).Elem()
@@ -499,7 +499,7 @@ func c20(c *wk.Ctx) {
 			c.Sample(map[string]interface{}{"stream": "compat", "pair": n.describe(), "source": fmt.Sprintf("%+v", s.Interface())})
 		}
 	})
-	c.Cases("incompat", c.Pick(3000, 50000), func(i int, rng *rand.Rand) {
+	c.Cases("incompat", c.Pick(3000, 300000), func(i int, rng *rand.Rand) {
 		tT, s, what := genIncompatible(rng)
 		t := reflect.New(tT)
 		var err error
